@@ -50,6 +50,19 @@ def main(argv=None):
         loader.cleanup_scratch()
 
 
+def _reproduces_in_fresh_process(pid, path):
+    """The plain replay (no explorer) in a new interpreter: exit 1 means the case violates."""
+    import subprocess
+
+    p = subprocess.run(
+        [sys.executable, "-B", "-m", "mc.cli", pid, "--replay", path],
+        cwd=evidence.ROOT, capture_output=True, text=True, timeout=600,
+    )
+    if p.returncode not in (0, 1):
+        raise loader.HarnessError(f"replay of {path} failed with exit {p.returncode}: {p.stdout[-500:]} {p.stderr[-500:]}")
+    return p.returncode == 1
+
+
 def _do_replay(mod, pid, path):
     with open(path) as f:
         doc = json.load(f)
@@ -85,15 +98,19 @@ def _do_check(mod, pid, tier, seed):
     os.makedirs(evidence.REPLAY_DIR, exist_ok=True)
     reported = []
     for v in unknown[:MAX_REPORTED]:
-        case = evidence.jsonable(v["case"])
-        again = mod.replay(evidence.unjson(json.loads(json.dumps(case))))
-        if not again:
-            raise loader.HarnessError(
-                f"violation did not reproduce on replay (unowned nondeterminism?): {v['key']}: {v['what']}"
-            )
         path = _replay_path(pid, v["key"])
-        with open(path, "w") as f:
-            json.dump({"property": pid, "key": v["key"], "what": v["what"], "case": case}, f, indent=1)
+        # candidates: the case itself, then alternatives that carry more context (e.g. the history that ran
+        # just before it in the same process, for code under test that keeps module-level state)
+        for cand in [v["case"]] + list(v.get("alt_cases", [])):
+            case = evidence.jsonable(cand)
+            with open(path, "w") as f:
+                json.dump({"property": pid, "key": v["key"], "what": v["what"], "case": case}, f, indent=1)
+            if _reproduces_in_fresh_process(pid, path):
+                break
+        else:
+            raise loader.HarnessError(
+                f"violation did not reproduce from its replay file in a fresh process (unowned nondeterminism?): {v['key']}: {v['what']}"
+            )
         reported.append((v, path))
 
     for key, what in seen_known:
